@@ -32,8 +32,15 @@ RICH = [
     ("soft_then_hard", "Well... first line\nsecond line\\\nthird line  \nfourth \"quoted\" line\nfifth\n\n- item first\n  item second\\\n  item third\n"),
     ("escaped_numerals", "see section\n1\\. for the details and 2\\) too\n\n3\\. starts a paragraph\n\n- 4\\. in an item\n"),
     ("backslash_break", "A path ends C:\\\\\\\nnext line after a hard break\n\nfive of them \\\\\\\\\\\nthen text\n\n- item ends x\\\\\\\n  continued\n\n> quote \\\\\\\n> more\n\ntwo only \\\\\nno break here\n"),
-    ("footnote_nextline", "text[^1] and more[^2]\n\n[^1]:\n    Starts on next line\n\n[^2]: ordinary note\n"),
     ("table_then_escape", "| A | B |\n|---|---|\n| x | y |\n\n1\\. not a list\n\n- 2\\. text\n"),
+]
+
+
+# witnesses of open findings whose output is not stable: used by C01 / C02 only (their attribution rules know them), not by the
+# option-cube families of the other properties
+FINDING_DOCS = [
+    ("footnote_nextline", "text[^1] and more[^2]\n\n[^1]:\n    Starts on next line\n\n[^2]: ordinary note\n"),
+    ("footnote_in_quote", "> note[^n] here\n>\n> [^n]: Note text.\n>\n>     more\n>\n> following paragraph in the quote\n\nafter\n"),
 ]
 
 
@@ -44,8 +51,11 @@ def d56_trigger(src: str) -> bool:
 
 
 def d57_trigger(src: str) -> bool:
-    """a list inside a footnote definition: on the label line, or on a continuation line (finding D57)"""
+    """a list inside a footnote definition (on the label line or on a continuation line), or a footnote definition inside a quote or list
+    item (finding D57)"""
     import re
+    if re.search(r"(?m)^ {0,3}(?:> ?|[-*+] +|\d+[.)] +)+\[\^[^\]\n]+\]:", src):
+        return True
     lines = src.split("\n")
     indef = False
     for l in lines:
